@@ -64,7 +64,7 @@ def canon_atom(src, pol):
 
 
 _NUMERIC_WORDS = {'pos', 'start', 'end', 'offset', 'level', 'size', 'index', 'line', 'column', 'count', 'base', 'field', 'value_start', 'value_end',
-                  'name_start', 'name_end', 'i', 'l', 'n', 'length', 'parent', 'nested', 'priority', 'repeat_guard', 'body_start', 'body_end'}
+                  'name_start', 'name_end', 'i', 'l', 'n', 'length', 'nested', 'priority', 'repeat_guard', 'body_start', 'body_end'}
 
 
 def _numeric(e):
